@@ -11,6 +11,7 @@ RULE = (
     'properties whose activator is not a disjunction are generated over topics p, q, a1..a3, b1..b3 with a payload field '
     'x in {0,1}: every scope form (incl. aliased activator and a terminator that mentions it) x every pattern kind x split-event '
     'width 1-3 x other-event width 1-2 x predicates {none, x = 0, x = 1, x = @ALIAS.x for an alias in scope} x time bound {none, 2 s}; '
+    'a quarter of the properties are judged after a history (canonical_form already applied; then a copy with another / no time bound made with but(), or the same text parsed again); '
     'each property and each member of canonical_form(property) is evaluated by a reference trace semantics on ALL timed traces up '
     'to a length bound over the property\'s own topics (payload 0/1, gaps 1/3), under two readings of scope re-activation; a '
     'plus sampled traces of length 5-8 drawn from the same Hypothesis tape; a violation is a trace on which "P holds" differs from "all members hold" under BOTH readings. Non-trivial: the canonical form has '
@@ -100,7 +101,8 @@ def gen_property(ch):
     while not ch.exhausted and len(long_traces) < 64:
         n = ch.int(5, 8)
         long_traces.append([list(ch.pick(alphabet)) for _ in range(n)])
-    return {'m': m, 'text': mast.render(m), 'long_traces': long_traces[:-1]}
+    derive = ch.pick([None, None, None, None, ('retime', 1), ('retime', 4), ('untimed',), ('reparse',)])
+    return {'m': m, 'text': mast.render(m), 'long_traces': long_traces[:-1], 'derive': derive}
 
 
 def topics_of(m):
@@ -128,6 +130,21 @@ def compile_case(inp):
     k, p = lib.outcome('property', inp['text'])
     if k != 'ast':
         return None
+    derive = inp.get('derive')
+    if derive:
+        # history: canonical_form has already been applied to the parsed property (and to its twin) when the property
+        # that is judged is derived from it - the result must depend on the argument only
+        core.guarded(_cf(), p)
+        if derive[0] == 'retime':
+            st0, q = core.guarded(lambda: p.but(pattern=p.pattern.but(max_time=float(derive[1]))))
+        elif derive[0] == 'untimed':
+            st0, q = core.guarded(lambda: p.but(pattern=p.pattern.but(max_time=float('inf'))))
+        else:  # 'reparse': an equal property object
+            st0, q = lib.outcome('property', inp['text'])
+            st0 = 'ok' if st0 == 'ast' else 'exc'
+        if st0 != 'ok':
+            return None
+        p = q
     st, members = core.guarded(_cf(), p)
     if st == 'exc':
         raise Violation('trace', f'canonical_form:{core.exc_sig(members)}', inp, f'canonical_form({inp["text"]!r}) raised {type(members).__name__}: {str(members)[:200]}')
@@ -149,7 +166,7 @@ def check_trace(inp, compiled, items):
         w, pt = bad['R1']
         raise Violation(
             'trace', f'split-changes-meaning:{p.pattern.pattern_type.name}:{p.scope.scope_type.name}', dict({k: v for k, v in inp.items() if k != 'long_traces'}, trace=[list(i) for i in items]),
-            f'{inp["text"]!r} {"holds" if w else "is violated"} on the trace {[(t, tp, m["x"]) for t, tp, m, _ in trace]} but its canonical form '
+            f'{str(p) if inp.get("derive") else inp["text"]!r}{" (derived: " + repr(inp["derive"]) + ")" if inp.get("derive") else ""} {"holds" if w else "is violated"} on the trace {[(t, tp, m["x"]) for t, tp, m, _ in trace]} but its canonical form '
             f'{[str(q) for q in members]} {"holds" if pt else "is violated"} (under both readings of scope re-activation)',
         )  # fmt: skip
     return bad
@@ -187,7 +204,8 @@ def shard(ctx, shard_no, nshards, n_props, maxlen):
     seen_props = set()
 
     def body(inp):
-        if inp['text'] in seen_props:
+        key = (inp['text'], tuple(inp.get('derive') or ()))
+        if key in seen_props:
             ctx.count('duplicate-property')
             return
         compiled = compile_case(inp)
@@ -212,7 +230,9 @@ def shard(ctx, shard_no, nshards, n_props, maxlen):
                 rd += 1
             if len(members) >= 2 and len({t for _g, t, _x in items if t in alts}) >= 2:
                 nt += 1
-        seen_props.add(inp['text'])
+        seen_props.add(key)
+        if inp.get('derive'):
+            ctx.count('history:' + inp['derive'][0])
         ctx.evaluations += n
         ctx.count('traces', n)
         ctx.count('nontrivial_counted', nt)
